@@ -177,6 +177,8 @@ def gen_world(rng, max_n=40, allow_multi_kind=True, max_cfg=4, loader=False):
                 c[k] = rng.choice([1, 2, 3, upe, upe + 1, rng.randint(1, 2 * upe + 1)])
             else:
                 c[k] = rng.choice([1, B, B + 1, 2 * B, spe, spe + 1, max(1, spe - 1), rng.randint(1, 2 * spe + 1)])
+        if rng.random() < 0.12 and c["kind"] in ("seq", "fixedperm", "epochperm"):
+            c["share_with"] = rng.randrange(ci + 1)  # 0 = the main dataset, j = config j-1
         configs.append(c)
     w = dict(N=N, M=N + rng.choice([0, 0, 2, 5]), B=B, drop_last=dl, dlbs=dlbs, budget=[kind, val], configs=configs,
              main_kind=rng.choice(["seq", "perm", "perm", "noepoch"]), source_attr=rng.choice(["data_source", "dataset"]))
@@ -189,6 +191,13 @@ def gen_world(rng, max_n=40, allow_multi_kind=True, max_cfg=4, loader=False):
             w["M"] = N * W
         w["main_kind"] = "dist"
         w["source_attr"] = "dataset"
+    for ci, c in enumerate(w["configs"]):
+        if c.get("share_with") is not None:
+            src_m = w["M"] if c["share_with"] == 0 else w["configs"][c["share_with"] - 1]["m"]
+            if src_m < c["n"]:
+                c.pop("share_with")
+            else:
+                c["m"] = src_m
     return w
 
 
@@ -210,11 +219,15 @@ def valid_world(w):
         return False
     if w["budget"][1] < 0:
         return False
-    for c in w["configs"]:
+    for ci_, c in enumerate(w["configs"]):
         if c["m"] < c["n"] or c["n"] < 0:
             return False
         if c["kind"] == "real_seq" and c["m"] != c["n"]:
             return False
+        if c.get("share_with") is not None:
+            j = c["share_with"]
+            if j > ci_ or c["m"] != (w["M"] if j == 0 else w["configs"][j - 1]["m"]):
+                return False
         if c["kind"] == "dist_seq" and (not c.get("dist") or -(-c["m"] // c["dist"]["W"]) != c["n"] or c["dist"]["rank"] >= c["dist"]["W"]):
             return False
         if all(c[k] is None for k in ("ene", "enu", "ens")):
@@ -322,10 +335,14 @@ class Rejected(Exception):
 def build(w, log, start=None, datasets=None, collators=None):
     from kappadata.samplers.interleaved_sampler import InterleavedSampler, InterleavedSamplerConfig
     attr = w.get("source_attr", "data_source")
-    main = make_sampler("main", w["N"], w["M"], w["main_kind"], log, attr, dataset=datasets[0] if datasets else None, dist=w.get("dist"))
+    objs = list(datasets) if datasets else [_Sized(w["M"])] + [_Sized(c["m"]) for c in w["configs"]]
+    for ci, c in enumerate(w["configs"]):
+        if c.get("share_with") is not None and c["share_with"] <= ci:
+            objs[ci + 1] = objs[c["share_with"]]  # the very same dataset object, used by two samplers
+    main = make_sampler("main", w["N"], w["M"], w["main_kind"], log, attr, dataset=objs[0], dist=w.get("dist"))
     cfgs = []
     for ci, c in enumerate(w["configs"]):
-        s = make_sampler(f"c{ci}", c["n"], c["m"], c["kind"], log, attr, dataset=datasets[ci + 1] if datasets else None, dist=c.get("dist"))
+        s = make_sampler(f"c{ci}", c["n"], c["m"], c["kind"], log, attr, dataset=objs[ci + 1], dist=c.get("dist"))
         cfgs.append(InterleavedSamplerConfig(sampler=s, every_n_epochs=c["ene"], every_n_updates=c["enu"],
                                              every_n_samples=c["ens"], batch_size=c["bs"],
                                              collator=collators[ci + 1] if collators else None))
@@ -410,8 +427,10 @@ def world_candidates(plan):
     for ci, c in enumerate(w["configs"]):
         if c["kind"] not in ("seq", "dist_seq", "real_seq", "epochperm"):
             yield core._set(plan, ["world", "configs", ci, "kind"], "seq")
-        if c["m"] != c["n"] and c["kind"] != "dist_seq":
+        if c["m"] != c["n"] and c["kind"] != "dist_seq" and c.get("share_with") is None:
             yield core._set(plan, ["world", "configs", ci, "m"], c["n"])
+        if c.get("share_with") is not None:
+            yield core._set(plan, ["world", "configs", ci, "share_with"], None)
         if c["bs"] is not None:
             yield core._set(plan, ["world", "configs", ci, "bs"], None)
         ks = [k for k in ("ene", "enu", "ens") if c[k] is not None]
